@@ -23,8 +23,14 @@ PU = "_url:parse_url"
 
 def _urlparse_stub(I, run, args, kwargs, node):
     run.effect("urlparse", args, kwargs, node=node)
-    port = Sym("p.port", "int")
-    run.assume_range(port, 0, 65535)
+    # urlparse(...).port is None when the URL names no port, otherwise 1..65535 (the property's range; ':0' is outside it)
+    if run.choose(2, I.locof(node), "the URL names a port") == 0:
+        port = NONE
+        run.memo["@port_explicit"] = False
+    else:
+        port = Sym("p.port", "int")
+        run.assume_range(port, 1, 65535)
+        run.memo["@port_explicit"] = True
     return new_obj(run, None, "parsed", hostname=Sym("p.hostname", "str"), port=port, path=Sym("p.path", "str"),
                    query=Sym("p.query", "str"), netloc=Sym("p.netloc", "str"), scheme=Sym("p.scheme", "str"),
                    username=Sym("p.username", "str"), password=Sym("p.password", "str"), params=Sym("p.params", "str"), fragment=Sym("p.fragment", "str"))
@@ -53,8 +59,11 @@ def r1(ctx):
         # the scheme term: first item of url.split(":", 1)
         sf = [(k, f) for k, f in run.facts.items() if f.eq is not None and isinstance(f.eq, C) and f.eq.v in ("ws", "wss")]
         scheme = sf[0][1].eq.v if sf else "other"
+        # "other" must be established, not assumed: some term of the path is known to differ from both "ws" and "wss"
+        # (or the scheme test was never reached because the URL was refused for a reason the class names)
+        scheme_excluded = any({"ws", "wss"} <= {x for x in f.excl if isinstance(x, str)} for f in run.facts.values())
         host_t = _tr(run, I, Sym("p.hostname", "str"))
-        port_t = _tr(run, I, Sym("p.port", "int"))
+        port_t = run.memo.get("@port_explicit")
         path_t = _tr(run, I, Sym("p.path", "str"))
         query_t = _tr(run, I, Sym("p.query", "str"))
         params_t = _tr(run, I, Sym("p.params", "str"))
@@ -64,6 +73,10 @@ def r1(ctx):
         elif host_t is False:
             cls = "no-host"
             ok = o.kind == "raise" and o.exc_class == "builtins.ValueError"
+        elif scheme == "other" and not scheme_excluded and o.kind == "raise" and port_t is not None and host_t is True:
+            # refused before the scheme was even looked at, with a host and (maybe) a port in the legal range: some legal URL is refused
+            cls = f"refused-before-scheme-test:port={'explicit' if port_t else 'default'}"
+            ok = False
         elif scheme == "other" and (o.kind == "raise" or host_t is not None):
             cls = "foreign-scheme"
             ok = o.kind == "raise" and o.exc_class == "builtins.ValueError"
